@@ -5,6 +5,7 @@ CONSTANTS
   Fuel = 80
   Prods = {"app", "let", "arith", "div", "str", "br", "data", "pair", "codata", "fix"}
   Faults = {}
+  Root = "os"
   BindTys = {"int", "str", "O", "pib", "tP", "tfi"}
   IntLits = {0, 3}
 INVARIANTS GenSound TypeSafety Report
